@@ -38,6 +38,7 @@ pub struct Features {
     pub diverger: bool,
     pub empty_pred: bool,
     pub builtins: bool,
+    pub time_op: bool,
 }
 
 fn constant(rng: &mut Rng) -> Term {
@@ -173,9 +174,10 @@ fn gen_goal(rng: &mut Rng, ctx: &Ctx, callable: &[Pred], scope: &mut Vec<String>
     if depth == 0 {
         return gen_leaf(rng, ctx, callable, scope, allow_cut);
     }
-    // weights: leaf, and, or, not
-    let w = [5, 6, if f.or { 3 } else { 0 }, if f.not { 3 } else { 0 }];
+    // weights: leaf, and, or, not, time
+    let w = [5, 6, if f.or { 3 } else { 0 }, if f.not { 3 } else { 0 }, if f.time_op { 2 } else { 0 }];
     match rng.weighted(&w) {
+        4 => GoalSpec::Time(Box::new(gen_goal(rng, ctx, callable, scope, depth - 1, false))),
         0 => gen_leaf(rng, ctx, callable, scope, allow_cut),
         1 => {
             let n = rng.range(1, 4) as usize;
@@ -204,6 +206,7 @@ fn gen_features(family: &str, rng: &mut Rng) -> Features {
         diverger: rng.chance(1, 5),
         empty_pred: rng.chance(1, 4),
         builtins: rng.chance(1, 3),
+        time_op: rng.chance(1, 5),
     };
     match family {
         "C05" => {
